@@ -59,16 +59,17 @@ Theorem c13_no_early_timeout_cleared :
 Proof. exact no_early_cleared. Qed.
 Print Assumptions c13_no_early_timeout_cleared.
 
-(* B11 itself: the stronger reading "the STORED deadline has passed at the moment of return"
-   is refuted by the two-event race (deadline extended just before the old one fires). *)
-Theorem c13_no_early_timeout_strong_refuted :
-  forall async : bool,
-    witness (sys_1 skel Reader async) (inv_no_early_strong (sys_1 skel Reader async))
-            [LThread 0; LSetRD DPast; LThread 0; LThread 0; LSetRD DFuture; LFire 0] /\
-    witness (sys_1 skel Writer async) (inv_no_early_strong (sys_1 skel Writer async))
-            [LThread 0; LSetWD DPast; LThread 0; LThread 0; LSetWD DFuture; LFire 0].
-Proof. exact no_early_strong_witness. Qed.
-Print Assumptions c13_no_early_timeout_strong_refuted.
+(* The strong reading (boundary B11 closed by re-validating the stored deadline when the timer
+   fires): Read / Write return a timeout only when the deadline stored AT THAT MOMENT has
+   passed - any number of callers (thread-modular), one caller, and two callers parked under a
+   deadline that is then extended. *)
+Theorem c13_no_early_timeout_strong :
+  forall (c : caller) (async : bool) (st : state), c <> Accepter ->
+    (sreach (sys_tm skel c async) st -> inv_no_early_strong (sys_tm skel c async) st = true) /\
+    (sreach (sys_1 skel c async) st -> inv_no_early_strong (sys_1 skel c async) st = true) /\
+    (sreach (sys_extend_n skel c 2 async) st -> inv_no_early_strong (sys_extend_n skel c 2 async) st = true).
+Proof. exact no_early_strong. Qed.
+Print Assumptions c13_no_early_timeout_strong.
 
 (* ------------------------------------------------------------------------------------------
    deadline changes while blocked *)
@@ -79,10 +80,9 @@ Definition c13_deadline_change_seen : Prop :=
   forall (c : caller) (async : bool) (st : state),
     sreach (sys_1 skel c async) st -> inv_deadline_seen (sys_1 skel c async) st = true.
 
-(* It fails on the current source for all three calls (consequence of F10, F11, F12). *)
+(* It still fails for AcceptKCP (F10); F11 and F12 are repaired, see c13_deadline_change_seen_rw. *)
 Theorem c13_deadline_change_seen_refuted :
-  forall c : caller,
-    reaches (sys_1 skel c false) (fun st => negb (inv_deadline_seen (sys_1 skel c false) st)).
+  reaches (sys_1 skel Accepter false) (fun st => negb (inv_deadline_seen (sys_1 skel Accepter false) st)).
 Proof. exact deadline_full_counterexamples. Qed.
 Print Assumptions c13_deadline_change_seen_refuted.
 
@@ -98,33 +98,16 @@ Theorem c13_deadline_rearm_partial :
 Proof. exact deadline_rearm_partial. Qed.
 Print Assumptions c13_deadline_rearm_partial.
 
-(* F12  none -> set: the call entered without deadline (timeout == nil); SetReadDeadline stores
-   one and posts the token; the wake-up branch does not `goto RESET_TIMER` because timeout is
-   nil; the deadline expires; the call is parked, no token, no timer.  Steps: call (entry ->
-   RESET_TIMER), RESET_TIMER -> Lock, locked check -> select, SetDeadline, token received ->
-   Lock, locked check -> select, clock reaches the deadline. *)
-Theorem c13_none_then_set_refuted :
-  forall async : bool,
-    witness (sys_none_then_set skel Reader async) (inv_expiry_wakes (sys_none_then_set skel Reader async))
-            [LThread 0; LThread 0; LThread 0; LSetRD DFuture; LThread 0; LThread 0; LTick RD] /\
-    witness (sys_none_then_set skel Writer async) (inv_expiry_wakes (sys_none_then_set skel Writer async))
-            [LThread 0; LThread 0; LThread 0; LSetWD DFuture; LThread 0; LThread 0; LTick WD].
-Proof. exact none_then_set_witness. Qed.
-Print Assumptions c13_none_then_set_refuted.
-
-(* F11  set -> zero -> set: deadline at entry (timer created, c = timeout.C); cleared (Stop,
-   c = nil); set again (timeout.Reset, but c stays nil); it expires: the timer is due, the
-   timeout case is disabled. *)
-Theorem c13_set_zero_set_refuted :
-  forall async : bool,
-    witness (sys_set_zero_set skel Reader async) (inv_expiry_wakes_timer (sys_set_zero_set skel Reader async))
-            [LThread 0; LThread 0; LThread 0; LSetRD DNone; LThread 0; LThread 0; LThread 0; LSetRD DFuture;
-             LThread 0; LThread 0; LThread 0; LTick RD] /\
-    witness (sys_set_zero_set skel Writer async) (inv_expiry_wakes_timer (sys_set_zero_set skel Writer async))
-            [LThread 0; LThread 0; LThread 0; LSetWD DNone; LThread 0; LThread 0; LThread 0; LSetWD DFuture;
-             LThread 0; LThread 0; LThread 0; LTick WD].
-Proof. exact set_zero_set_witness. Qed.
-Print Assumptions c13_set_zero_set_refuted.
+(* F11 and F12 repaired: for Read and Write the full statement holds - every SetReadDeadline /
+   SetWriteDeadline value (none->set, set->later/earlier, set->zero->set, past, cleared) set
+   while the call is parked is followed, and when the stored deadline expires the timeout fires. *)
+Theorem c13_deadline_change_seen_rw :
+  forall (c : caller) (async : bool) (st : state),
+    c <> Accepter -> sreach (sys_1 skel c async) st ->
+    inv_deadline_seen (sys_1 skel c async) st = true /\
+    inv_expiry_wakes (sys_1 skel c async) st = true.
+Proof. exact deadline_change_seen_rw. Qed.
+Print Assumptions c13_deadline_change_seen_rw.
 
 (* F10  AcceptKCP reads the deadline once: set while parked -> never fires; cleared while
    parked -> still fires. *)
@@ -136,21 +119,6 @@ Theorem c13_accept_deadline_refuted :
             [LLSetRD DFuture; LThread 0; LLSetRD DNone].
 Proof. exact accept_deadline_witness. Qed.
 Print Assumptions c13_accept_deadline_refuted.
-
-(* Found by the product model (not in DESIGN section 6): two callers parked under a deadline;
-   the deadline is replaced by a later one; SetDeadline posts ONE token; the caller that gets it
-   re-arms, the other keeps the old timer and returns a timeout while the stored deadline is
-   still in the future and no wake-up is pending for it. *)
-Theorem c13_deadline_extend_multi_refuted :
-  forall async : bool,
-    witness (sys_extend_n skel Reader 2 async) (inv_no_early_quiet (sys_extend_n skel Reader 2 async))
-            [LThread 0; LThread 0; LThread 0; LThread 1; LThread 1; LThread 1; LSetRD DFuture; LThread 0;
-             LTickStale 1; LFire 1] /\
-    witness (sys_extend_n skel Writer 2 async) (inv_no_early_quiet (sys_extend_n skel Writer 2 async))
-            [LThread 0; LThread 0; LThread 0; LThread 1; LThread 1; LThread 1; LSetWD DFuture; LThread 0;
-             LTickStale 1; LFire 1].
-Proof. exact extend_multi_witness. Qed.
-Print Assumptions c13_deadline_extend_multi_refuted.
 
 (* ------------------------------------------------------------------------------------------
    close and socket error are broadcast *)
@@ -225,18 +193,14 @@ Theorem c13_multi_accepter :
 Proof. exact multi_accepter. Qed.
 Print Assumptions c13_multi_accepter.
 
-(* F4  two parked readers, one datagram with two messages, one token: the first reader takes one
-   message and returns without re-posting; PeekSize() > 0, the second reader is parked, no token,
-   nobody in flight.  Second witness: ONE message and a short read buffer (the remainder stays
-   in bufptr) - which the repair candidate of DESIGN section 6 (`if PeekSize() > 0`) misses. *)
-Theorem c13_multi_reader_refuted :
-  forall async : bool,
-    witness (sys_n skel Reader 2 async) (inv_multi_peek (sys_n skel Reader 2 async))
-            [LThread 0; LThread 0; LThread 0; LThread 1; LThread 1; LThread 1; LInput 2 false; LThread 0; LThread 0] /\
-    witness (sys_n skel Reader 2 async) (inv_multi (sys_n skel Reader 2 async))
-            [LThread 0; LThread 0; LThread 0; LThread 1; LThread 1; LThread 1; LInput 1 false; LThread 0; LThread 0].
-Proof. exact multi_reader_witness. Qed.
-Print Assumptions c13_multi_reader_refuted.
+(* F4 repaired: with 2 and 3 readers, a parked reader with data readable has a token pending or
+   another reader is between its wake-up and its locked check. *)
+Theorem c13_multi_reader :
+  forall (async : bool) (st : state),
+    (sreach (sys_n skel Reader 2 async) st -> inv_multi (sys_n skel Reader 2 async) st = true) /\
+    (sreach (sys_n skel Reader 3 async) st -> inv_multi (sys_n skel Reader 3 async) st = true).
+Proof. exact multi_reader. Qed.
+Print Assumptions c13_multi_reader.
 
 (* ------------------------------------------------------------------------------------------
    the proposed repairs (Fixed.v: f11 + f12 + f4), checked against the same statements:
